@@ -800,17 +800,32 @@ def _expr_of(stmts):
     st = stmts[0]
     if isinstance(st, ast.Return):
         return st.value if st.value is not None else ast.Constant(value=None)
-    if isinstance(st, ast.If):
+    if isinstance(st, ast.If) and _expr_of(st.body) is not None:
         a = _expr_of(st.body)
-        if a is None:
-            return None
         b = _expr_of(list(st.orelse) + list(stmts[1:]))
         if b is None:
             return None
         return ast.IfExp(test=st.test, body=a, orelse=b)
     # a local (re)binding read once afterwards (or call-free): read it through
     tgt = val = None
-    if isinstance(st, ast.Assign) and len(st.targets) == 1 and \
+    if isinstance(st, ast.If) and not st.orelse and len(st.body) == 1 and \
+            _call_free(st.test) is not None:
+        # a conditional rebinding `if c: t = A` / `if c: t += A`
+        b = st.body[0]
+        t_, v_ = None, None
+        if isinstance(b, ast.Assign) and len(b.targets) == 1 and \
+                isinstance(b.targets[0], ast.Name):
+            t_, v_ = b.targets[0].id, b.value
+        elif isinstance(b, ast.AugAssign) and isinstance(b.target, ast.Name) and \
+                isinstance(b.op, ast.Add):
+            t_ = b.target.id
+            v_ = ast.BinOp(left=ast.Name(id=t_, ctx=ast.Load()), op=ast.Add(), right=b.value)
+        if t_ is not None:
+            tgt = t_
+            val = ast.IfExp(test=st.test, body=v_, orelse=ast.Name(id=t_, ctx=ast.Load()))
+    if tgt is not None:
+        pass
+    elif isinstance(st, ast.Assign) and len(st.targets) == 1 and \
             isinstance(st.targets[0], ast.Name):
         tgt, val = st.targets[0].id, st.value
     elif isinstance(st, ast.AugAssign) and isinstance(st.target, ast.Name) and \
@@ -1202,8 +1217,26 @@ class _UnrollComp(ast.NodeTransformer):
 
 
 class _Spell(ast.NodeTransformer):
-    """[*X] is list(X); (*X,) is tuple(X); getattr(x, 'lit') is x.lit"""
+    """[*X] is list(X); (*X,) is tuple(X); getattr(x, 'lit') is x.lit;
+    x[slice(a, b)] is x[a:b]"""
     changed = False
+
+    def visit_Subscript(self, node):
+        self.generic_visit(node)
+        sl = node.slice
+        if isinstance(sl, ast.Call) and isinstance(sl.func, ast.Name) and \
+                sl.func.id == 'slice' and 1 <= len(sl.args) <= 3 and not sl.keywords and \
+                not any(isinstance(a, ast.Starred) for a in sl.args):
+            a = list(sl.args)
+            if len(a) == 1:
+                a = [None, a[0]]
+            a += [None] * (3 - len(a))
+            none = lambda x: x is None or (isinstance(x, ast.Constant) and x.value is None)
+            node.slice = ast.copy_location(ast.Slice(
+                lower=None if none(a[0]) else a[0], upper=None if none(a[1]) else a[1],
+                step=None if none(a[2]) else a[2]), sl)
+            self.changed = True
+        return node
 
     def visit_Call(self, node):
         self.generic_visit(node)
